@@ -140,6 +140,29 @@ def judge(ctx, case):
                           "file %s.. reference %s.." % (pos, info["iw"], info["rw"], indxref.narrowest_word(maxc),
                                                        data[max(0, pos - 4):pos + 8].hex(), ref[max(0, pos - 4):pos + 8].hex()), case)
             return
+        # (1b) the same values held in memory in the other byte order ('>u4' arrays, as they come out of foreign
+        # buffers): the writer may refuse them, but whatever it writes without complaint is the documented layout
+        nonempty = [k for k, v in ent.items() if len(v)]
+        if nonempty and ctx.evals % 5 == 0 and not case.get("big_array"):
+            ent2 = dict(indx.entries_dict(case))
+            ks = list(ent2)
+            for k in set(ks[:: max(1, len(ks) // 3)] + [ks[[tuple(int(c) for c in q) for q in ks].index(nonempty[0])]]):
+                ent2[k] = ent2[k].astype(ent2[k].dtype.newbyteorder())
+            ctx.count("class:byte_swapped_row_id_arrays")
+            try:
+                data2 = indx.save_bytes(case, entries=ent2)
+            except (RuntimeError, TypeError, ValueError):
+                data2 = None
+                ctx.count("byte_swapped:refused")
+            if data2 is not None:
+                ctx.count("byte_swapped:written")
+                if data2 != ref:
+                    pos = next((i for i, (x, y) in enumerate(zip(ref, data2)) if x != y), min(len(ref), len(data2)))
+                    ctx.violation("bytes-differ:byte-swapped-arrays:" + feat,
+                                  "row-id arrays given in non-native byte order were accepted, and the file differs from the "
+                                  "documented little-endian layout at offset %d: file %s.. reference %s.."
+                                  % (pos, data2[max(0, pos - 4):pos + 8].hex(), ref[max(0, pos - 4):pos + 8].hex()), case)
+                    return
     # (3) the library reads independently encoded files
     items = [(k, v.tolist()) for k, v in ent.items()]
     maxlen = max([len(v) for _, v in items] + [0])
